@@ -242,6 +242,15 @@ func PoolGet(p *sync.Pool, site uint32) any {
 	return v
 }
 
+// PoolGetY is PoolGet with a preemption point in front. It is used for the pool sites of the repository's
+// own (fully instrumented) packages only: there a task never holds a real lock while it parks. Code between
+// two lock operations is not atomic either, and taking an object from a pool is where "prepare a shared
+// thing, then use it" sequences typically start.
+func PoolGetY(p *sync.Pool, site uint32) any {
+	Yield(site)
+	return PoolGet(p, site)
+}
+
 func PoolPut(p *sync.Pool, v any, site uint32) {
 	s := cur.Load()
 	if s == nil {
